@@ -669,6 +669,95 @@ def r15_with_manager(text, this_name):
         text, _ = rename_ident(text, 'self', this_name)
 
 
+def for_loops(body):
+    """all `for PAT in EXPR { BODY }` loops in a function body, in source order:
+    list of (pattern_text, iter_expr_text, loop_body_text_including_braces)"""
+    m = mask(body)
+    res = []
+    for x in re.finditer(r'\bfor\b', m):
+        # skip `for<'a>` (HRTB) and `impl X for Y`
+        rest = m[x.end():]
+        if re.match(r'\s*<', rest):
+            continue
+        bo = find_body_open(m, x.end())
+        if bo is None:
+            continue
+        head = m[x.end():bo]
+        k = re.search(r'\bin\b', head)
+        if not k:
+            continue
+        bc = match_close(m, bo)
+        res.append((body[x.end():x.end() + k.start()].strip(), body[x.end() + k.end():bo].strip(), body[bo:bc + 1]))
+    return res
+
+
+def for_loop_spans(body):
+    """like for_loops, but returns (start_of_for_keyword, end_after_closing_brace, pat, iter_expr, body_with_braces)"""
+    m = mask(body)
+    res = []
+    for x in re.finditer(r'\bfor\b', m):
+        rest = m[x.end():]
+        if re.match(r'\s*<', rest):
+            continue
+        bo = find_body_open(m, x.end())
+        if bo is None:
+            continue
+        head = m[x.end():bo]
+        k = re.search(r'\bin\b', head)
+        if not k:
+            continue
+        bc = match_close(m, bo)
+        res.append((x.start(), bc + 1, body[x.end():x.end() + k.start()].strip(), body[x.end() + k.end():bo].strip(), body[bo:bc + 1]))
+    return res
+
+
+def r17_for_to_loop(body, k, loopspec):
+    """R17: the k-th `for PAT in ITER { BODY }` becomes, by the definition of `for` (Rust reference, "Iterator loops"),
+         { let mut iter__k = ITER; loop <loopspec> { let PAT = match iter__k.next() { Some(x__) => x__, None => { break; } }; BODY } }
+    with the invariant / ensures / decreases clauses from the template's //@loop section spliced in.  ITER must already
+    be an iterator (the prelude's stub iterator types have no IntoIterator impl, so anything else fails to type-check)."""
+    loops = for_loop_spans(body)
+    if k >= len(loops):
+        raise AnchorLost('R17: only %d for-loops, forinv=%d' % (len(loops), k))
+    st, en, pat, it_expr, lb = loops[k]
+    # `(A..B).rev()` over integers -> the prelude's stub `rev_range(A, B)` (std semantics of Rev<Range<_>> assumed there)
+    mm = re.match(r'^\((.+?)\.\.(.+)\)\s*\.rev\(\)$', it_expr, re.S)
+    if mm and '..' not in mm.group(2):
+        it_expr = 'rev_range(%s, %s)' % (mm.group(1).strip(), mm.group(2).strip())
+    new = ('{ let mut iter__%d = %s;\nloop\n%s\n{\nlet %s = match iter__%d.next() { Some(x__) => x__, None => { break; } };\n%s\n}\n}'
+           % (k, it_expr, loopspec, pat, k, lb[1:-1]))
+    return body[:st] + new + body[en:], 1
+
+
+def r18_body_use(text):
+    """R18: `use path;` declarations inside a function body are dropped (the prelude brings the names into scope)"""
+    m = mask(text)
+    out, last, n = [], 0, 0
+    for x in re.finditer(r'(?m)^[ \t]*use\s+[\w:]+(\s+as\s+\w+)?\s*;[ \t]*\n?', m):
+        out.append(text[last:x.start()])
+        last = x.end()
+        n += 1
+    out.append(text[last:])
+    return ''.join(out), n
+
+
+def closures(body):
+    """closure literals `|PARAMS| { BODY }` (also `move |..| {..}`) in source order: list of (params_text, body_with_braces)"""
+    m = mask(body)
+    res = []
+    for x in re.finditer(r'\|([^|\n]*)\|\s*\{', m):
+        # skip `a || b {`-like false hits: the char before the first `|` must not be an operand
+        j = x.start() - 1
+        while j >= 0 and m[j] in ' \t\n':
+            j -= 1
+        if j >= 0 and (m[j].isalnum() or m[j] in '_)]'):
+            continue
+        bo = x.end() - 1
+        bc = match_close(m, bo)
+        res.append((body[x.start(1):x.end(1)].strip(), body[bo:bc + 1]))
+    return res
+
+
 def rename_ident(text, old, new):
     m = mask(text)
     out = []
